@@ -738,9 +738,12 @@ def find_external_type(file_ast: FortranAST, desc_string: str, name: str) -> boo
     if not desc_string.upper() == "EXTERNAL":
         return False
     counter = 0
-    # Definition without EXTERNAL has already been parsed
+    # Definition without EXTERNAL has already been parsed, in this scope: the
+    # same idiom may be repeated in other procedures of the file
     for v in file_ast.variable_list:
-        if name == v.name:
+        if v.parent is not file_ast.current_scope:
+            continue
+        if name.lower() == v.name.lower():
             # If variable is already in external objs it has
             # been parsed correctly so exit
             if v in file_ast.external_objs:
@@ -777,7 +780,9 @@ def find_external_attr(file_ast: FortranAST, name: str, new_var: Variable) -> bo
     """
     counter = 0
     for v in file_ast.external_objs:
-        if v.name != name:
+        if v.parent is not file_ast.current_scope:
+            continue
+        if v.name.lower() != name.lower():
             continue
         if v.desc.upper() != "EXTERNAL":
             continue
